@@ -561,8 +561,10 @@ def _g2(ctx: Context) -> None:
             continue
         t = T.of(cfg, n, n.exprs[0])
         # (a) len(F) > n0
-        if t[0] == "cmp" and len(t[1]) == 1 and t[1][0] in ("Gt", "Lt"):
-            big, small = (t[2][0], t[2][1]) if t[1][0] == "Gt" else (t[2][1], t[2][0])
+        if t[0] == "cmp" and len(t[1]) == 1 and t[1][0] in ("Gt", "Lt", "LtE", "GtE"):
+            # `a > b` [true], `b < a` [true], `a <= b` [false], `b >= a` [false] all say a > b
+            big, small = (t[2][0], t[2][1]) if t[1][0] in ("Gt", "LtE") else (t[2][1], t[2][0])
+            lab_a = "T" if t[1][0] in ("Gt", "Lt") else "F"
             sb, ss = _len_of_attr(big, hm.F), _len_of_attr(small, hm.F)
             if sb is not None and ss is not None and sb != ss:
                 cur, sam = _site_nodes(ctx, cfg, sb), _site_nodes(ctx, cfg, ss)
@@ -588,7 +590,7 @@ def _g2(ctx: Context) -> None:
                     cfg.render_path(early or late or []),
                 )
                 if good:
-                    gate_a += ctx.edges(cfg, n, "T")
+                    gate_a += ctx.edges(cfg, n, lab_a)
         # (b') the same question asked by an explicit loop: `for host in self.hosts: if <pred(host)>: <yes>` - the
         #      outcome `pred holds` of that test, for the predicate _get_connect_hosts filters with, is an untried address
         if t[0] == "cmp" and len(t[1]) == 1 and t[1][0] in ("NotIn", "In") and any(s_[0] in ("each", "iter") and len(s_) == 2 and _self_attr(s_[1]) == hm.H for s_ in subterms(t)):
